@@ -890,6 +890,40 @@ class Exec:
     def ex_Lambda(self, n, pc, env):
         return Closure(n, env)
 
+    def _comp(self, n, pc, env, make):
+        if len(n.generators) != 1:
+            raise Unsupported("nested comprehension")
+        g = n.generators[0]
+        it = self.eval(g.iter, pc, env)
+        if isinstance(it, dict):
+            it = list(it.keys())
+        if not isinstance(it, (list, tuple, set, range)):
+            raise Unsupported(f"comprehension over {type(it).__name__}")
+        out = []
+        for x in it:
+            e2 = self.assign(g.target, x, pc, env)
+            keep = True
+            for c in g.ifs:
+                t = truth(self.eval(c, pc, e2))
+                if not isinstance(t, bool):
+                    raise Unsupported("comprehension filter is symbolic")
+                keep = keep and t
+            if keep:
+                out.append(make(e2))
+        return out
+
+    def ex_ListComp(self, n, pc, env):
+        return self._comp(n, pc, env, lambda e2: self.eval(n.elt, pc, e2))
+
+    def ex_SetComp(self, n, pc, env):
+        return set(self._comp(n, pc, env, lambda e2: self.eval(n.elt, pc, e2)))
+
+    def ex_GeneratorExp(self, n, pc, env):
+        return self._comp(n, pc, env, lambda e2: self.eval(n.elt, pc, e2))
+
+    def ex_DictComp(self, n, pc, env):
+        return dict(self._comp(n, pc, env, lambda e2: (self.eval(n.key, pc, e2), self.eval(n.value, pc, e2))))
+
     def ex_Call(self, n, pc, env):
         f = self.eval(n.func, pc, env)
         args = []
